@@ -170,7 +170,8 @@ func (r *Run) run(pd *PropDef) int {
 			return 2
 		}
 		r.L.LoadSec = time.Since(t0).Seconds()
-		if err := r.L.LoadSpecs(filepath.Join(r.Verif, "specs"), append([]string{"common"}, pd.Specs...)); err != nil {
+		// every spec file is loaded for every property: contracts of other properties are used modularly
+		if err := r.L.LoadSpecs(filepath.Join(r.Verif, "specs"), []string{"common", "build", "consts", "ops", "opsbv"}); err != nil {
 			r.engineError("specs: %v", err)
 			return 2
 		}
